@@ -109,6 +109,7 @@ def execute(case, prefix, seed):
         viol.append(("helper-shares-differ-from-direct", "uninterrupted helper upload and direct upload differ in the data regions of shares %r" % (bad,)))
     n = case["n"]
     g = grid.Grid(n, nclients=3 if case.get("pre") == "concurrent" else 2, chooser=ch, fault_kinds=("disconnect",) if case.get("faults") else (), client_kw=client_kw(case))
+    g.sched.batch = bool(case.get("batch"))     # turn granularity, see grid.Sched.batch
     rig = lib_helper.Rig(g)
     try:
         g.sched.fault_filter = lambda e: e.conn.si >= lib_helper.HELPER_SI and e.conn.ci == 0
@@ -252,6 +253,13 @@ def concurrent(case, g, rig, ch, data, dref, href, counts, viol, obs):
         idx = next(i for i, (kd, lbl, o) in enumerate(g.sched.log) if kd.startswith("fault"))
         obs["cut_after_chunks"] = sum(1 for (kd, lbl, o) in g.sched.log[log0:idx] if kd == "deliver" and lbl.endswith(":read_encrypted"))
         obs["cut_at"] = faulted[0].split(":", 1)[1]
+    # had the helper been handed client B's reader (its `upload` call delivered) when A was cut off?
+    # If not, A's was the only reader the helper had: that upload fails as an interrupted one, B is
+    # told so when its call arrives, and B's RETRY is the resumed upload the property speaks of.
+    b_joined = True
+    if faulted:
+        b_joined = any(kd == "deliver" and lbl.startswith("c2>") and lbl.endswith(":upload") for (kd, lbl, o) in g.sched.log[log0:idx])
+    obs["b_joined_before_cut"] = b_joined
     obs["helper_files_after_1"] = sorted(kk.split("/")[0] for kk in rig.incoming())
     if not b:
         viol.append(("helper-upload-hangs", "two concurrent helper uploads: at least one Deferred never fired; log tail=%r" % (g.sched.log[-6:],)))
@@ -265,7 +273,17 @@ def concurrent(case, g, rig, ch, data, dref, href, counts, viol, obs):
                 viol.append(("helper-cap-differs-from-direct", "concurrent upload %s returned %r / %r, direct upload gives %r / %r" % (who, r.get_uri(), r.get_verifycapstr(), dref["cap"], dref["vcap"])))
         else:
             obs["outcomes"].append("err:" + lib_imm.failure_name(r))
-            if who == "B" and not early_timer:
+            if who == "B" and not b_joined and not early_timer:
+                b3 = g.wait(g.clients[2].upload(Data(data, convergence=CONV)), explore=False)
+                g.quiesce()
+                if not b3 or b3[0][0] != "ok":
+                    viol.append(("resumed-upload-failed", "client B retried after being told that the upload it joined had lost its only reader (%s): %r" % (faulted, b3 and lib_imm.failure_name(b3[0][1]))))
+                else:
+                    obs["outcomes"].append("B-retry-ok")
+                    results = [results[0], (True, b3[0][1])]
+                    if b3[0][1].get_uri() != dref["cap"]:
+                        viol.append(("helper-cap-differs-from-direct", "client B's retried upload returned %r, direct upload gives %r" % (b3[0][1].get_uri(), dref["cap"])))
+            elif who == "B" and not early_timer:
                 viol.append(("concurrent-upload-failed:" + lib_imm.failure_name(r), "client B's helper upload failed although only client A's connection was lost (%s): %s" % (faulted, r.getErrorMessage()[:400])))
             if who == "A" and not faulted and not early_timer:
                 viol.append(("helper-upload-failed:" + lib_imm.failure_name(r), "client A's helper upload failed without any interruption: %s" % r.getErrorMessage()[:300]))
@@ -376,6 +394,9 @@ def run(tier, seed):
         mixed += [c for c in cases if c["size"] == 64 and c["pre"] == "empty"]
     res.merge(grid.split_tasks(common.pmap, chunk, mixed, (seed,), 1, 1))
     n_df = res.counts.get("executions", 0) - n_f - n_d
+    # several calls per reactor turn (grid.Sched.batch): one loss at every call, default schedule
+    res.merge(grid.split_tasks(common.pmap, chunk, [dict(c, batch=True) for c in cases if c["size"] != 100], (seed,), 0, 1))
+    n_b = res.counts.get("executions", 0) - n_f - n_d - n_df
     cuts = res.notes.pop("cuts", set())
     meths = res.notes.pop("cut_meths", set())
     res.notes.pop("children", None)
@@ -387,8 +408,8 @@ def run(tier, seed):
         "transitions": res.counts.get("transitions", 0),
         "traces_validated_against_impl": res.counts.get("executions", 0),
         "rule": "state = one complete execution (pre-state, explored helper upload #1, resumed upload #2 if needed, upload #3), all real code; transitions = remote calls delivered; "
-                "%d executions: one connection loss at every call of the client<->helper connection at the default schedule (f<=1, d=0) for %d cases; %d executions: every schedule with <= %d deviations (<= %d for the %d two-client cases), no fault, %d cases; %d executions with d<=1 and f<=1 together (%d cases)" % (
-                    n_f, len(cases), n_d, d_bound, d_bound - 1, len(ccases), len(dcases) + len(ccases), n_df, len(mixed)),
+                "%d executions: one connection loss at every call of the client<->helper connection at the default schedule (f<=1, d=0) for %d cases; %d executions: every schedule with <= %d deviations (<= %d for the %d two-client cases), no fault, %d cases; %d executions with d<=1 and f<=1 together (%d cases); %d executions with several calls per reactor turn, f<=1" % (
+                    n_f, len(cases), n_d, d_bound, d_bound - 1, len(ccases), len(dcases) + len(ccases), n_df, len(mixed), n_b),
         "interruption_points_chunks_delivered": {kk: sorted(v) for kk, v in sorted(by_file.items())},
         "interrupted_calls": sorted(meths),
         "schedule_trees": res.counts.get("trees", 0),
